@@ -91,19 +91,25 @@ class NearestImage:
             self.gn = np.linalg.norm(self.G, axis=1)
         self.max_enum = 0
 
-    def search(self, d0, tie_rel=1e-9):
+    def search(self, d0, tie_rel=1e-9, tie_abs=None):
         """returns dict(L=min length, n=integer shift (3,) in the ORIGINAL cell vectors achieving it,
         vec=the image, second=length of the shortest image that differs from vec by more than rounding
-        (inf if none inside the searched ball), nenum=number of images enumerated)"""
+        (inf if none inside the searched ball), nenum=number of images enumerated, ntie=number of enumerated
+        images whose length is within the tie threshold L*(1+tie_rel)+tie_abs of the minimum (1 = the minimiser
+        is unique at that resolution)).  tie_abs defaults to 64*EPS*scale; a caller that compares against code
+        accumulating the shift in the *unreduced* cell vectors should pass its own (larger) absolute threshold."""
         d0 = np.asarray(d0, dtype=float)
         if self.k == 0:
-            return dict(L=float(np.linalg.norm(d0)), n=np.zeros(3, dtype=int), vec=d0.copy(), second=float('inf'), nenum=1)
+            return dict(L=float(np.linalg.norm(d0)), n=np.zeros(3, dtype=int), vec=d0.copy(), second=float('inf'), nenum=1,
+                        ntie=1)
         t = d0 @ self.P
         m0 = -np.rint(t)
         y0 = d0 + m0 @ self.R
         L0 = float(np.linalg.norm(y0))
-        dperp = d0 - t @ self.R
-        r2 = max(L0 * L0 - float(dperp @ dperp), 0.0)
+        # in-span part of the trial image, computed directly (L0^2 - |d_perp|^2 cancels catastrophically when
+        # d_perp dominates, e.g. one periodic axis and a separation nearly perpendicular to it)
+        ypar = (t + m0) @ self.R
+        r2 = float(ypar @ ypar)
         # radius enlarged so that ties and rounding are inside; scale term covers |d0| >> |cell|
         scale = float(np.abs(d0).max() + np.abs(self.R).sum())
         rad = (r2 ** 0.5) * (1 + 1e-6) + 64 * EPS * scale
@@ -117,10 +123,11 @@ class NearestImage:
         lens = np.sqrt((vecs * vecs).sum(axis=1))
         i = int(np.argmin(lens))
         L = float(lens[i])
-        other = lens[lens > L * (1 + tie_rel) + 64 * EPS * scale]
+        thr = L * (1 + tie_rel) + (64 * EPS * scale if tie_abs is None else float(tie_abs))
+        other = lens[lens > thr]
         self.max_enum = max(self.max_enum, len(grid))
         return dict(L=L, n=n_orig[i].astype(int), vec=vecs[i], second=float(other.min()) if len(other) else float('inf'),
-                    nenum=len(grid))
+                    nenum=len(grid), ntie=int(len(lens) - len(other)))
 
 
 def brute_force(d0, V, pbc, radius):
